@@ -53,13 +53,12 @@ Definition decode_prop (pg : znode) : option sprop :=
           | None => Some (mksprop (SFixed (a_dt v) (a_shape v) (a_flat v)) ms)
           | Some (ZA d) =>
               match a_shape v with
-              | [n; w] =>
-                  match all_some (map (slice_elem (a_flat d)) (split_rows w n (a_flat v))) with
+              | n :: rest =>        (* one row per element; (N, ndim+1) in the specification, so the row width is product rest *)
+                  match all_some (map (slice_elem (a_flat d)) (split_rows (product rest) n (a_flat v))) with
                   | Some els => Some (mksprop (SVar (a_dt d) els) ms)
                   | None => None
                   end
-              | [O] => Some (mksprop (SVar (a_dt d) []) ms)      (* no element: the table is empty *)
-              | _ => None
+              | [] => None
               end
           | Some (ZG _ _) => None
           end
